@@ -100,7 +100,7 @@ func genC04(out, tier string, rng *rand.Rand) {
 						}
 						prog := append(append([]Req{}, setup...), Req{Kind: "compose", B: c04Bucket, N: "dst",
 							Srcs: []Src{{Name: "src1", Cond: Raw("")}, {Name: "obj", Cond: condValue(k, 0, c04Bucket, "obj")}},
-							Up: &UpMeta{CType: "text/composed"}, CP: noConds})
+							Up:   &UpMeta{CType: "text/composed"}, CP: noConds})
 						prog = append(prog, probes...)
 						prog = append(prog, Req{Kind: "get_media", B: c04Bucket, N: "dst"})
 						tasks = append(tasks, Task{mk, op, prog, k != 0})
